@@ -122,23 +122,32 @@ def main():
     st = ["(* C01 -- the statements, one sentence per operation and space dimension (written by mkcoq.py, committed).\n"
           "   <op>N is the definition regenerated from /repo's stensor<N,T> code by the tracer (C01_gen.v). *)\n" + HDR +
           "From C01 Require Import C01Spec C01_gen.\nImport ListNotations.\nLocal Open Scope R_scope.\n"]
-    pr = ["(* C01 -- proofs; every proof is `unfold the traced definition; mat` (C01Tactics.v), nothing depends on the\n"
-          "   shape of the traced terms. *)\n" + HDR +
-          "From Coq Require Import Lra.\nFrom C01 Require Import C01Spec C01_gen C01Tactics C01Statements.\nImport ListNotations.\nLocal Open Scope R_scope.\n"]
-    pp = ["(* C01 -- property theorems (statements are in C01Statements.v / C01Spec.v; proofs in C01Proofs.v) *)\n" + HDR +
-          "From C01 Require Import C01Spec C01_gen C01Statements C01Proofs.\nImport ListNotations.\nLocal Open Scope R_scope.\n"]
+    prh = ("(* C01 -- proofs; every proof is `unfold the traced definition; mat` (C01Tactics.v), nothing depends on the\n"
+           "   shape of the traced terms. *)\n" + HDR +
+           "From Coq Require Import Lra.\nFrom C01 Require Import C01Spec C01_gen C01Tactics C01Statements.\nImport ListNotations.\nLocal Open Scope R_scope.\n")
+    pph = ("(* C01 -- property theorems (statements are in C01Statements.v / C01Spec.v; proofs in %s) *)\n" + HDR +
+           "From C01 Require Import C01Spec C01_gen C01Statements %s.\nImport ListNotations.\nLocal Open Scope R_scope.\n")
+    # three files compiled side by side (the stress conversions are the expensive field identities)
+    GROUP = {"cauchy_to_pk2": "b", "pk2_to_cauchy": "c", "pk2_cauchy_roundtrip": "c"}
+    pr = {"": [prh], "b": [prh], "c": [prh]}
+    pp = {g: [pph % ("C01Proofs%s.v" % g.upper(), "C01Proofs%s" % g.upper())] for g in pr}
     all_ = {N: stmts(N) for N in (1, 2, 3)}
     for op in ORDER:
+        g = GROUP.get(op, "")
         st.append("\n(* %s *)" % TITLES[op])
         for N in (1, 2, 3):
             b, s = all_[N][op]
             binder = ("forall %s : R,\n    " % " ".join(b)) if b else ""
             st.append("Definition %s_stmt%d : Prop :=\n  %s%s." % (op, N, binder, s))
             fn = "Id%d" % N if op == "Id" else "%s%d" % (op, N)
-            pr.append("Lemma %s_ok%d : %s_stmt%d.\nProof. unfold %s_stmt%d, %s. intros. mat. Qed." % (op, N, op, N, op, N, fn))
-        pp.append("\n(* %s *)\nTheorem C01_%s : %s_stmt1 /\\ %s_stmt2 /\\ %s_stmt3.\nProof. exact (conj %s_ok1 (conj %s_ok2 %s_ok3)). Qed.\nPrint Assumptions C01_%s." % (
+            pr[g].append("Lemma %s_ok%d : %s_stmt%d.\nProof. unfold %s_stmt%d, %s. intros. mat. Qed." % (op, N, op, N, op, N, fn))
+        pp[g].append("\n(* %s *)\nTheorem C01_%s : %s_stmt1 /\\ %s_stmt2 /\\ %s_stmt3.\nProof. exact (conj %s_ok1 (conj %s_ok2 %s_ok3)). Qed.\nPrint Assumptions C01_%s." % (
             TITLES[op], op, op, op, op, op, op, op, op))
-    for name, txt in (("C01Statements.v", st), ("C01Proofs.v", pr), ("Properties_C01.v", pp)):
+    files = [("C01Statements.v", st)]
+    for g in pr:
+        files.append(("C01Proofs%s.v" % g.upper(), pr[g]))
+        files.append(("Properties_C01%s.v" % g, pp[g]))
+    for name, txt in files:
         with open(os.path.join(here, "coq", name), "w") as f:
             f.write("\n".join(txt) + "\n")
 
